@@ -8,7 +8,7 @@ import glob, os
 taken = []
 for m in sorted(glob.glob(f'/verif/seeded/{pid}_*/meta.json')):
     taken.append(json.load(open(m)).get('summary', ''))
-start = len(taken) + 1
+start = 1 + max([int(os.path.basename(os.path.dirname(m)).split('_')[1]) for m in glob.glob(f'/verif/seeded/{pid}_*/meta.json')] or [0])
 avoid = ""
 if taken:
     avoid = "\nOther engineers have ALREADY produced the following changes for this property; yours must be different in kind (other code sites, other mechanisms), not variations of them:\n" + "".join(f"  - {t}\n" for t in taken) + f"Number your changes starting at {start} (directories {pid}_{start}, {pid}_{start+1}, ...).\n"
